@@ -273,6 +273,14 @@ def run(ctx):
         must_decode("STRING2.decode", p.STRING2.decode, b"\x00\x00", "")
         must_decode("SHORT_STRING[None].decode", p.SHORT_STRING[None].decode, b"\x02ab\x00\x01c\x00", ["ab", "", "c", ""])
         must_decode("STRINGI.decode", p.STRINGI.decode, b"\x01eng\xd0\x04\x00\x00\x00", (["" ], ["eng"], [4]))
+        # "rest of the buffer" byte strings (n_bytes(-1)): with no bytes left there is no value to start - BufferEmptyError, which is what
+        # ends an unbounded array of them (round 13, R09-m2: an empty read returned b"" and such an array never ended)
+        rest = p.n_bytes(-1)
+        must_raise("n_bytes(-1).decode(empty)", rest.decode, b"")
+        must_raise("Struct(UINT, n_bytes(-1)).decode(no rest)", p.Struct(p.UINT("a"), p.n_bytes(-1, "rest")).decode, b"\x01\x00")
+        must_decode("n_bytes(-1).decode", rest.decode, b"abc", b"abc")
+        must_decode("Array(None, n_bytes(-1)).decode", p.Array(None, rest).decode, b"abc", [b"abc"])
+        must_decode("Array(None, n_bytes(2)).decode", p.Array(None, p.n_bytes(2)).decode, b"abcd", [b"ab", b"cd"])
         from pycomm3 import ModuleIdentityObject
         for bad in [{}, None, 5, {"vendor": "no such vendor"},
                     {"vendor": "ODVA", "product_type": "nope", "product_code": 1, "revision": {"major": 1, "minor": 1}, "status": b"ab", "serial": "00000001", "product_name": "x"},
